@@ -75,6 +75,8 @@ def run_tsan(pid):
     env["VH_NO_EVIDENCE"] = "1"
     env["VERIF_REPO"] = vlib.REPO
     env["TSAN_OPTIONS"] = "halt_on_error=1 exitcode=66 second_deadlock_stack=1"
+    # the race detector has to see the server's threads: keep servers inside the monitored process
+    env["VH_INPROCESS_SERVER"] = "1"
     t0 = time.time()
     try:
         p = subprocess.run([vh, pid, "quick"], env=env, stdout=subprocess.PIPE, stderr=subprocess.STDOUT, timeout=3600)
